@@ -46,6 +46,7 @@ type sig struct {
 	params, result, args string
 }
 
+var basicKinds = []string{"int8", "int16", "int32", "int64", "uint8", "uint16", "uint32", "uint64", "uint", "uintptr"}
 var fieldNames = []string{"X", "Y", "Z"}
 var methNames = []string{"X", "Y", "Z", "M", "N", "String", "Error", "Len", "Less", "Swap"}
 var sigs = map[string]sig{
@@ -174,7 +175,7 @@ func genHier(r *vh.Rng) *Hier {
 			}
 			for i := 0; i < ne; i++ {
 				var ref, kind int
-				if r.Chance(3, 4) && k+1 < n {
+				if !r.Chance(1, 9) && k+1 < n {
 					ref = k + 1 + r.Intn(n-k-1)
 					kind = FVal
 					if r.Chance(1, 3) && h.Types[ref].Kind != KIface {
@@ -182,6 +183,9 @@ func genHier(r *vh.Rng) *Hier {
 					}
 				} else {
 					// pointer embedding may point anywhere (cycles, self reference)
+					if k+1 >= n && !r.Chance(1, 4) {
+						continue
+					}
 					ref = r.Intn(n)
 					kind = FPtr
 					if h.Types[ref].Kind == KIface {
@@ -276,7 +280,9 @@ func (h *Hier) typeSrc(k int) string {
 	td := h.Types[k]
 	switch td.Kind {
 	case KBasic:
-		return fmt.Sprintf("type %s int", td.Name)
+		// every named non-struct type gets its own underlying kind, never plain int (known finding: named types that
+		// share the reflect.Type of another type are confused in type switches and assertions)
+		return fmt.Sprintf("type %s %s", td.Name, basicKinds[k%len(basicKinds)])
 	case KIface:
 		var ms []string
 		for _, m := range td.Methods {
@@ -351,7 +357,7 @@ func (h *Hier) lit(k int, depth int, ctr *int) string {
 	next := func() int { *ctr++; return *ctr }
 	switch td.Kind {
 	case KBasic:
-		return fmt.Sprintf("%s(%d)", td.Name, next())
+		return fmt.Sprintf("%s(%d)", td.Name, next()%100)
 	case KIface:
 		return fmt.Sprintf("L{UL: %d}", next())
 	}
@@ -367,7 +373,7 @@ func (h *Hier) lit(k int, depth int, ctr *int) string {
 				continue // nil
 			}
 			if h.Types[f.Ref].Kind == KBasic {
-				parts = append(parts, fmt.Sprintf("%s: new%s(%d)", f.Name, h.Types[f.Ref].Name, next()))
+				parts = append(parts, fmt.Sprintf("%s: new%s(%d)", f.Name, h.Types[f.Ref].Name, next()%100))
 			} else {
 				parts = append(parts, fmt.Sprintf("%s: &%s", f.Name, h.lit(f.Ref, depth+1, ctr)))
 			}
@@ -396,6 +402,15 @@ type Prog struct {
 	Comment string   `json:"comment,omitempty"`
 }
 
+func (h *Hier) anyRecursive() bool {
+	for k := range h.Types {
+		if h.recursive(k) {
+			return true
+		}
+	}
+	return false
+}
+
 func (h *Hier) prog(name string) *Prog {
 	p := &Prog{Name: name, Hier: h}
 	for k := len(h.Types) - 1; k >= 0; k-- {
@@ -420,7 +435,8 @@ func (h *Hier) prog(name string) *Prog {
 		}
 	}
 	for k, td := range h.Types {
-		if td.Kind == KIface {
+		if td.Kind == KIface || h.anyRecursive() {
+			// documented limitation: recursive types are emulated (values of recursive types are not built; lookups only)
 			continue
 		}
 		ctr := 0
